@@ -104,7 +104,7 @@ class HttpWorld(World):
 
     # ------------------------------------------------------------------------------------------
     async def request(self, method, path, *, headers=None, body=b'', session=None):
-        """-> dict(status, location, text, json, exc, notsupported, stub, sql=[(phase, sql)])"""
+        """-> dict(status, location, text, reason, json, exc, notsupported, stub, sql=[(phase, sql)])"""
         from aiohttp import streams
         from aiohttp.test_utils import make_mocked_request
         import aiohttp_session
@@ -126,7 +126,7 @@ class HttpWorld(World):
             s = aiohttp_session.Session()
             s.update(session)
             req['aiohttp_session'] = s
-        out = dict(status=None, location=None, text=None, json=None, exc=None, notsupported=None, stub=False, sql=[])
+        out = dict(status=None, location=None, text=None, reason=None, json=None, exc=None, notsupported=None, stub=False, sql=[])
         log = out['sql']
 
         def sqlhook(sess, phase, sql):
@@ -153,6 +153,7 @@ class HttpWorld(World):
             out['status'] = e.status
             out['location'] = e.headers.get('Location') if e.headers is not None else None
             out['text'] = (e.text or e.reason or '')[:2000]
+            out['reason'] = e.reason
         except NotSupported as e:
             out['notsupported'] = str(e)[:300]
         except asyncio.CancelledError:
